@@ -9,6 +9,7 @@ use std::panic;
 include!("../../kani/specs.rs");
 mod ops;
 mod native;
+mod tables;
 #[cfg(feature = "physics")]
 mod phys;
 
